@@ -39,20 +39,21 @@ def some_values(rng, bpp, k):
 
 def far_indices(bpp):
     n = max(1, bpp // 8)
-    # far beyond the buffer but with index * bytes_per_pixel inside usize (the model's stated range)
-    return [USIZE_MAX // n, USIZE_MAX // n - 1, 2 ** 63 // n, 2 ** 32, 2 ** 32 + 1]
+    # far beyond the buffer, on both sides of the checked_mul boundary (index * bytes_per_pixel = usize::MAX)
+    return [i for i in [USIZE_MAX // n, USIZE_MAX // n - 1, USIZE_MAX // n + 1, 2 ** 63 // n, 2 ** 32, 2 ** 32 + 1] + OVERFLOWING
+            if i <= USIZE_MAX]
 
 
-# indices whose product with 2, 3 or 4 bytes per pixel leaves usize (finding index_mul_overflow for >= 16 bpp)
+# indices whose product with 2, 3 or 4 bytes per pixel leaves usize: `index.checked_mul(N)` must reject them
+# (before repair b0f500f the product wrapped: load(buf, 2^63) returned pixel 0)
 OVERFLOWING = [USIZE_MAX, 2 ** 63, 2 ** 63 + 1, 2 ** 62 + 1, USIZE_MAX // 3 + 2]
 
 
 def ops(rng, bpp, tot, k):
-    """a mix of next (N) and nth (T<k>); huge skips stay inside the model's range
-    (index * bytes_per_pixel <= usize::MAX; for <= 8 bpp every usize, the add saturates)"""
+    """a mix of next (N) and nth (T<k>); huge skips: saturating add and checked_mul on both sides of their limits"""
     out = []
     nb = max(1, bpp // 8)
-    huge_left = 1 if nb > 1 else 99
+    huge_left = 99
     for _ in range(k):
         r = rng.random()
         if r < 0.35:
@@ -63,10 +64,8 @@ def ops(rng, bpp, tot, k):
             out.append('T%d' % tot)
         elif r < 0.64 and huge_left:
             huge_left -= 1
-            if nb > 1:
-                out.append('T%d' % rng.choice([USIZE_MAX // nb - 4096, 2 ** 63 // nb - 4096, 2 ** 40]))
-            else:
-                out.append('T%d' % rng.choice([USIZE_MAX, USIZE_MAX - 1, 2 ** 63, 2 ** 40]))
+            out.append('T%d' % rng.choice([USIZE_MAX // nb - 4096, 2 ** 63 // nb - 4096, 2 ** 40,
+                                           USIZE_MAX, USIZE_MAX - 1, 2 ** 63, min(USIZE_MAX, USIZE_MAX // nb + 1), 2 ** 63 // nb]))
         else:
             out.append('T%d' % rng.randrange(0, tot // 3 + 2))
     return out
@@ -107,7 +106,7 @@ def search(tier, rng):
                 for k, bg in enumerate(backgrounds(rng, n)):
                     yield J('p_rd_iter', bpp, alt, rng.randrange(2 ** 32), 12, *bg)
                     if k == 3:
-                        for idx in far_indices(bpp) + OVERFLOWING:
+                        for idx in far_indices(bpp):
                             yield J('p_rd_far', bpp, alt, idx, *bg)
                     for idx in list(range(0, tot + 2)) + far_indices(bpp)[:2]:
                         # exhaustive in the value up to 8 bpp always; up to 16 bpp for one background (all in thorough)
